@@ -92,8 +92,34 @@ func scnConn(seq []string, grace time.Duration, change string, partition bool, s
 	return s
 }
 
+// scnConnFlap: the connection flaps while a reconnect verification is in flight:
+// reconnect, then (20 ms after the verification's reads) disconnect, an outside party takes
+// the record, reconnect again 20 ms later. Replies may arrive later than the store applied
+// the operation, so that the first verification can still be waiting for its reply when the
+// second reconnect is handled.
+func scnConnFlap(grace time.Duration) *Scenario {
+	s := K1(&Scenario{Name: fmt.Sprintf("conn-flap/grace%v", grace)})
+	s.Insts = []InstSpec{{ID: "A", Monitored: true, Grace: grace}}
+	s.Script = starts("A")
+	t := 1*s.H + 47*ms + 11*us
+	s.Script = append(s.Script,
+		Item{At: t, Actor: "conn", Do: "reconnect", Inst: "A", Fixed: true},
+		Item{At: t + 120*ms, Actor: "conn", Do: "disconnect", Inst: "A", Fixed: true},
+		Item{At: t + 125*ms, Actor: "outside", Do: "put", Payload: `{"id":"X","token":"tok-x","priority":0}`, Fixed: true},
+		Item{At: t + 140*ms, Actor: "conn", Do: "reconnect", Inst: "A", Fixed: true})
+	s.Horizon = t + 140*ms + effGrace(grace, s.H) + 3*s.H
+	s.MaxSteps = 3000
+	s.LatencyBound = s.H/2 - ms
+	s.DelayMenu = []time.Duration{s.H/2 - 2*ms}
+	s.SplitApply = true
+	s.Tags = map[string]string{"c11": "changed", "change": "usurper"}
+	s.DevFrom = t - 5*ms
+	return s
+}
+
 func c11Plan(tier string) []PlanItem {
 	var items []PlanItem
+	items = append(items, PlanItem{scnConnFlap(2*200*ms + 7*ms + 13*us), 1})
 	H := 200 * ms
 	// not multiples of H: a grace timer armed at a heartbeat instant must not expire
 	// exactly at another heartbeat instant (two library goroutines runnable at one
@@ -247,6 +273,66 @@ func oracleC11(r *Result) ([]Violation, bool) {
 		}
 	}
 	check(r.EndT + 1)
+	// --- every reconnect is followed by a fresh read: when a reconnect notification is
+	// the latest notification throughout its 100 ms settle delay and A leads (and is not
+	// being stopped) throughout, the verification's first read is issued by the end of it
+	{
+		const settle = 100 * ms
+		type note struct {
+			t    time.Duration
+			kind string
+		}
+		var notes []note
+		var stopAt time.Duration = -1
+		for _, e := range r.Trace {
+			if e.K == "notify" {
+				notes = append(notes, note{e.T, e.S})
+			}
+			if e.K == "api.call" && strings.HasPrefix(e.S, "stop") && stopAt < 0 {
+				stopAt = e.T
+			}
+		}
+		leadsThrough := func(from, to time.Duration) bool {
+			ok, seen := true, false
+			for _, e := range r.Trace {
+				if e.K != "q" || e.T < from || e.T > to {
+					continue
+				}
+				for _, sn := range e.Snap {
+					if sn.I == "A" {
+						seen = true
+						if !sn.IsLeader || sn.Cut {
+							ok = false
+						}
+					}
+				}
+			}
+			return ok && seen
+		}
+		for i, n := range notes {
+			if n.kind != "reconnect" || n.t+settle+ms > r.EndT {
+				continue
+			}
+			latest := true
+			for _, m := range notes[i+1:] {
+				if m.t <= n.t+settle {
+					latest = false
+				}
+			}
+			if !latest || (stopAt >= 0 && stopAt <= n.t+settle+ms) || !leadsThrough(n.t, n.t+settle+ms) {
+				continue
+			}
+			read := false
+			for _, op := range r.Ops {
+				if op.Inst == "A" && op.Label == "reconn" && op.Kind == "Get" && op.TIssue >= n.t && op.TIssue <= n.t+settle+ms {
+					read = true
+				}
+			}
+			if !read {
+				s.add(n.t+settle, "no-fresh-read-after-reconnect", "A led through the reconnect notification at %v and its %v settle delay, no other notification followed in that time, but no verification read was issued by %v", n.t, settle, n.t+settle)
+			}
+		}
+	}
 	// --- reconnect verification: keeps leadership iff the fresh reads confirm
 	for idx, e := range r.Trace {
 		if e.K != "op.answer" || !strings.Contains(e.Op, ".reconn.Get#") {
